@@ -6,6 +6,9 @@
 #include <memory>
 #include <string>
 
+#include <sys/mman.h>
+#include <unistd.h>
+
 #include "sonic/sonic.h"
 #include "sonic/experiment/lazy_update.h"
 
@@ -100,6 +103,35 @@ std::string CFG_FN(const std::string& text, const std::string& path, const std::
     sd.Parse(text);
     sd.ParseSchema(second);
     d += "|S:" + (sd.HasParseError() ? errclass((int)sd.GetParseError(), sd.GetErrorOffset()) : sd.Dump());
+  }
+  // 7: serialise strings that BORROW bytes ending on the last byte before an unmapped page (the raw text serves as content:
+  // it is full of quotes and backslashes), for several lengths
+  {
+    static char* arena = nullptr;
+    static size_t page = 0;
+    if (!arena) {
+      page = (size_t)sysconf(_SC_PAGESIZE);
+      arena = (char*)mmap(nullptr, 3 * page, PROT_READ | PROT_WRITE, MAP_PRIVATE | MAP_ANONYMOUS, -1, 0);
+      mprotect(arena + 2 * page, page, PROT_NONE);
+    }
+    size_t n = text.size() < 2 * page ? text.size() : 2 * page;
+    char* end = arena + 2 * page;
+    memcpy(end - n, text.data() + (text.size() - n), n);
+    std::string q;
+    size_t k = 0;
+    for (size_t len : {n, n > 3 ? n - 3 : n, n / 2, n > 40 ? (size_t)37 : n / 3, n > 80 ? (size_t)77 : n / 4, n > 33 ? (size_t)31 : n, n > 70 ? (size_t)63 : n}) {
+      // the string ends `slack` bytes before the unmapped page (0: on its last byte; 1: like a C string whose NUL is the last byte)
+      static const size_t slacks[] = {0, 1, 2, 1, 17, 1, 33};
+      size_t slack = slacks[k++ % 7];
+      if (len + slack > n) slack = 0;
+      Document sd;
+      sd.SetArray();
+      Node sn;
+      sn.SetString(end - slack - len, len);
+      sd.PushBack(std::move(sn), sd.GetAllocator());
+      q += sd.Dump() + ";";
+    }
+    d += "|Q:" + q;
   }
   // 6: UpdateLazy
   if (ok && second_ok) d += "|U:" + UpdateLazy(text, second);
